@@ -51,8 +51,8 @@ func init() {
 			return cases
 		},
 		Bounds: stdBounds(
-			map[string]interface{}{"templates": "the C10 templates + 3 multi-statement scripts, x 4 modes + 4 scripts run before and after a run of another script (history)", "map_iteration_orders": "per path one ranged map (each in turn) takes every order (maps <= 3 entries; identity, reversal, rotation for larger ones), the others insertion order", "concurrency": "two calls executed one after the other under the write-confinement monitor (no interleaving is modelled)"},
-			map[string]interface{}{"templates": "the C10 thorough templates + 3 multi-statement scripts, x 4 modes", "map_iteration_orders": "per path up to two ranged maps take every order, the others insertion order", "concurrency": "by write confinement"}),
+			map[string]interface{}{"templates": "the C10 templates + 3 multi-statement scripts, x 4 modes (purity, determinism, flags, reentrancy); templates reading metadata also in the modes answers (store keeps and compares what it handed out) and shared (two calls over one bundled static store); + 4 scripts run before and after a run of another script (history)", "map_iteration_orders": "per path one ranged map (each in turn) takes every order (maps <= 3 entries; identity, reversal, rotation for larger ones), the others insertion order", "concurrency": "two calls executed one after the other under the write-confinement monitor (no interleaving is modelled)"},
+			map[string]interface{}{"templates": "the C10 thorough templates + 3 multi-statement scripts, x 4 modes; metadata templates also in the modes answers and shared", "map_iteration_orders": "per path up to two ranged maps take every order, the others insertion order", "concurrency": "by write confinement"}),
 		Assumptions: append([]string{
 			"re-entrancy is decided by reduction: Run writes only objects it allocated itself (no store into the parsed program, the variables map, the flag map or any package-level variable); calls with disjoint write sets cannot interfere under any interleaving",
 			"goroutine scheduling and the Go memory model are not modelled; races inside math/big, regexp and the ANTLR runtime are outside",
